@@ -33,8 +33,9 @@ def shards(tier):
             for pb in pbs:
                 for auto in (True, False):
                     out.append(dict(dev=dev, op="transfer", sgeo=sg, dgeo=dg, k=1, steps=3 if tier == "quick" else 4, partition_by=pb, auto_split=auto))
-                    out.append(dict(dev=dev, op="transfer", sgeo=sg, dgeo=dg, k=2, steps=2, partition_by=pb, auto_split=auto, washes=[1],
-                                    ncand=2 if tier == "quick" else 4))
+                    if pb == "auto" or not auto:
+                        out.append(dict(dev=dev, op="transfer", sgeo=sg, dgeo=dg, k=2, steps=2, partition_by=pb, auto_split=auto, washes=[1],
+                                        ncand=2 if tier == "quick" else 4))
         out.append(dict(dev=dev, op="transfer", sgeo="p2x2", dgeo="p2x2", same=True, k=2, steps=2, partition_by="auto", washes=[1], ncand=2))
     return out
 
